@@ -215,6 +215,31 @@ static void near_identity_h0() {
   }
 }
 
+// the same x asked again through the same caller buffer (and through the buffer-less overloads) after the object was re-gridded in
+// place: the answer is that of a fresh object holding the new grid (differential oracle), or an error once x is outside
+static void regrid_same_query() {
+  for (int d : {2, 3, 4}) for (int kind = 0; kind < 2; kind++) {
+    auto fill = [&](Sol& s) { for (unsigned ix = 0; ix < 5; ix++) s.setrho(ix, 0, scaled(probe(d, ix % 3), 1 + 0.3 * ix)); };
+    Sol s(5, d, 1, 0.25); squids::SQuIDS::expectationValueDBuffer B(d); int np = d * (d - 1) / 2; std::vector<bool> avr(np, true);
+    SU_vector O = mkvec(d, probe(d, 2));
+    const double RNG[][2] = {{0.5, 10}, {0.5, 8}, {1.0, 9.5}, {0.5, 4}, {0.5, 12}};   // the query x = 7 is inside all but the fourth
+    for (auto& r : RNG) {
+      if (kind) s.Set_xrange(r[0], r[1], "log"); else s.Set_xrange(r[0], r[1], "lin");
+      fill(s); if (&r == &RNG[0]) s.Evolve(1.25);
+      Sol f(5, d, 1, 0.25); if (kind) f.Set_xrange(r[0], r[1], "log"); else f.Set_xrange(r[0], r[1], "lin"); fill(f); f.Evolve(1.25);
+      squids::SQuIDS::expectationValueDBuffer Bf(d); count("evaluations"); count("regrid_same_query");
+      for (int q = 0; q < 4; q++) {
+        double got = NAN, want = NAN; bool tg = false, tw = false; std::vector<bool> a2(np, true);
+        try { got = q == 0 ? s.GetExpectationValueD(O, 0, 7.0, B) : q == 1 ? s.GetExpectationValueD(O, 0, 7.0) : q == 2 ? s.GetExpectationValueD(O, 0, 7.0, B, 1e300, avr) : s.GetExpectationValueD(O, 0, 7.0, 1e300, avr); } catch (const std::exception&) { tg = true; }
+        try { want = q == 0 ? f.GetExpectationValueD(O, 0, 7.0, Bf) : q == 1 ? f.GetExpectationValueD(O, 0, 7.0, Bf) : f.GetExpectationValueD(O, 0, 7.0, Bf, 1e300, a2); } catch (const std::exception&) { tw = true; }
+        bool inside = 7.0 >= r[0] && 7.0 <= r[1];
+        if (tw == inside) { violation("harness:fresh-object-disagrees-with-range", J().num("a", r[0]).num("b", r[1]).done()); continue; }
+        if (tg != tw || (!tg && !(std::fabs(got - want) <= 1e-12 * (1 + std::fabs(want))))) violation("GetExpectationValueD:same-x-after-regridding:d=" + std::to_string(d), J().i("d", d).str("scale", kind ? "log" : "lin").num("a", r[0]).num("b", r[1]).i("overload", q).i("threw", tg).num("got", got).num("fresh_object", want).done());
+      }
+    }
+  }
+}
+
 // thread-local scratch buffers of the buffer-less overloads: solvers of different dimension queried alternately on one (fresh) thread
 static void scratch_sequences() {
   for (int d1 = 2; d1 <= 6; d1++) for (int d2 = 2; d2 <= 6; d2++) for (int d3 = 2; d3 <= 6; d3++) {
@@ -272,6 +297,7 @@ int main(int argc, char** argv) {
   if (ar.shard == 0 && !ar.reduced) scratch_sequences();
   if (ar.shard == 0) steep_nodes();
   if (ar.shard == 0) near_identity_h0();
+  if (ar.shard == 0) regrid_same_query();
   finish();
   return 0;
 }
